@@ -110,6 +110,38 @@ def case_map(rec, width, keys, kind, check_entries=True):
             rec.violation('serialize-not-repeatable', f'width {width}, keys {keys[:8]}: a second serialize() gives another cell', 'case_map', args)
     except Exception as e:
         rec.violation('serialize-not-repeatable', f'width {width}, keys {keys[:8]}: second serialize() raised {exc_name(e)}: {e}', 'case_map', args)
+    # the map keeps being used after it was serialised: add a key, overwrite a value - each through both public setters -
+    # and serialise again: the new cell must hold the new map (no stale result carried over from the earlier call)
+    try:
+        free = next((k for k in range(1 << min(width, 12)) if k not in want), None)
+        steps_ = [('set_int_key:new', free), ('set:overwrite', keys[0]), ('set_int_key:overwrite', keys[-1]), ('set:new', free if free is None else next((k for k in range(free + 1, 1 << min(width, 12)) if k not in want), None))]
+        cur = dict(refmap)
+        for tag, k in steps_:
+            if k is None:
+                continue
+            vv_ = val_for(k ^ 1 if 'overwrite' in tag else k, kind)
+            v_lib, v_ref = vv_[0], vv_[1]
+            if tag.startswith('set_int_key'):
+                hm.set_int_key(k, v_lib)
+            else:
+                hm.set(k, v_lib)
+            cur[k] = v_ref
+            c2 = hm.serialize()
+            rec.trans()
+            leaves2, _ = RH.parse(RC.RCell(c2.bits.to01(), tuple(_rc(r) for r in c2.refs)), width)
+            if {kk: vv[0] for kk, vv in leaves2.items()} != cur:
+                rec.violation(f'incremental:{tag}', f'width {width}, keys {keys[:8]}: after serialize() and then {tag}({k}) a new serialize() does not hold the new map '
+                              f'(a result of the earlier call is reused?)', 'case_map', args)
+                break
+            rec.covered('incremental')
+    except (RH.RefDictError, RC.RefCellError) as e:
+        rec.violation('incremental:malformed', f'width {width}, keys {keys[:8]}: cell after an update is not a valid Hashmap: {e}', 'case_map', args)
+    except Exception as e:
+        try:
+            RH.build(cur, width)
+            rec.violation('incremental:raises', f'width {width}, keys {keys[:8]}: update after serialize raised {exc_name(e)}: {e}', 'case_map', args)
+        except RH.RefDictError:
+            pass
     entries = [('parse', lambda: HashMap.parse(cell.begin_parse(), width, None, DESER[kind]))]
     if check_entries:
         entries += [
@@ -176,6 +208,26 @@ def shard_w4(rec, part, parts, full):
         case_map(rec, 4, keys, kind, check_entries=(size <= 2 or mask % 64 == 5))
         case_map(rec, 4, keys[::-1], kind, check_entries=False)
     rec.sample({'width': 4, 'keys': [0, 5, 15], 'orders': ['ascending', 'descending']})
+
+
+def shard_wn(rec, width, maxsize, part, parts):
+    """every key set of the width with at most maxsize keys, and every complement of one (thorough)"""
+    import itertools
+    kinds = ['uint', 'int', 'coins']
+    n = 1 << width
+    i = 0
+    for size in range(1, maxsize + 1):
+        for keys in itertools.combinations(range(n), size):
+            i += 1
+            if i % parts != part:
+                continue
+            case_map(rec, width, list(keys), kinds[i % 3], check_entries=(i % 50 == 0))
+            if size >= 2:
+                case_map(rec, width, list(keys)[::-1], kinds[i % 3], check_entries=False)
+            if size <= 2 and width <= 6:
+                comp = [k for k in range(n) if k not in keys]
+                case_map(rec, width, comp, kinds[i % 3], check_entries=False)
+    rec.sample({'width': width, 'keys': [0, n // 2, n - 1], 'family': f'all key sets of size <= {maxsize} and complements of sets of size <= 2'})
 
 
 def wide_key_sets(w, seed):
@@ -368,6 +420,12 @@ def shards(tier, seed):
         out.append({'fn': 'shard_w4', 'args': {'part': p, 'parts': parts, 'full': tier == 'thorough'}, 'prio': 3})
     for w in (8, 16, 32, 64, 256, 267, 1023):
         out.append({'fn': 'shard_wide', 'args': {'width': w}, 'prio': 1})
+    if tier == 'thorough':
+        for p in range(8):
+            out.append({'fn': 'shard_wn', 'args': {'width': 5, 'maxsize': 3, 'part': p, 'parts': 8}, 'prio': 2})
+        for p in range(4):
+            out.append({'fn': 'shard_wn', 'args': {'width': 6, 'maxsize': 2, 'part': p, 'parts': 4}, 'prio': 2})
+        out.append({'fn': 'shard_wn', 'args': {'width': 8, 'maxsize': 2, 'part': 0, 'parts': 1}, 'prio': 2})
     out.append({'fn': 'shard_forms', 'args': {}})
     out.append({'fn': 'shard_badkeys', 'args': {}})
     out.append({'fn': 'shard_unfit', 'args': {}})
